@@ -4,7 +4,7 @@
    dup_identifier_in_transaction); be_holds P be = the backend maps the identifier of every named node of P to that
    node's own document.  Text level (json text, expression strings, float repr) is outside the model. *)
 From Coq Require Import String List ZArith QArith Bool.
-Require Import QV.C10.Model QV.C10.Spec QV.C10.Proofs QV.C10.Proofs_store QV.C10.Proofs_share QV.C10.Witness.
+Require Import QV.C10.Model QV.C10.Spec QV.C10.Iface QV.C10.Proofs QV.C10.Proofs_store QV.C10.Proofs_share QV.C10.Proofs_iface QV.C10.Witness.
 Import ListNotations.
 Open Scope string_scope.
 
@@ -93,6 +93,20 @@ Theorem C10_sharing_general : forall P be, wf P = true -> consistent P -> be_hol
                          pt_id a = Some j -> pt_id b = Some j -> a = b).
 Proof. exact sharing_general. Qed.
 Print Assumptions C10_sharing_general.
+
+(* interface clause: parameter_names / measurement_names / defined_channels (Iface.v, per class, free symbols of
+   expressions from an oracle table vt) of a template that is equal up to object identity are equal, for every table *)
+Theorem C10_interface_erase : forall vt p p', erase p' = erase p -> iface_of vt p' = iface_of vt p.
+Proof. exact iface_roundtrip. Qed.
+Print Assumptions C10_interface_erase.
+
+(* ... hence the template loaded back by a fresh storage declares the same parameters, measurement names and channels *)
+Theorem C10_storage_interface : forall vt P s' i, wf P = true -> consistent P -> pt_id P = Some i ->
+  store (empty_s []) P = Ok s' ->
+  exists p' st', load (length (nodes P)) (s_be s') fresh_l i = Ok (p', st') /\ erase p' = erase P /\
+                 iface_of vt p' = iface_of vt P.
+Proof. exact storage_interface. Qed.
+Print Assumptions C10_storage_interface.
 
 (* every stored document stands alone: below the top level no object of a real class carries an identifier, i.e. named
    sub-templates appear as reference nodes only; an unnamed template's data embeds no named template at all *)
